@@ -1,0 +1,270 @@
+// Copyright 2025 Anapaya Systems
+//
+// Licensed under the Apache License, Version 2.0 (the "License");
+// you may not use this file except in compliance with the License.
+// You may obtain a copy of the License at
+//
+//   http://www.apache.org/licenses/LICENSE-2.0
+//
+// Unless required by applicable law or agreed to in writing, software
+// distributed under the License is distributed on an "AS IS" BASIS,
+// WITHOUT WARRANTIES OR CONDITIONS OF ANY KIND, either express or implied.
+// See the License for the specific language governing permissions and
+// limitations under the License.
+
+//! Verification trace hooks (cargo feature `verif-hooks`, off by default).
+//!
+//! A trace callback at the synchronisation points of the waiter/worker handshake
+//! (`MultiPathManager::{path, cached_path, ensure_managed_paths, stop_managing_paths}`,
+//! `PathSet::{manage, fetch_and_update}`, `PathSetHandle::{active_path, await_ongoing_update}`).
+//! Each call site is a single `#[cfg(feature = "verif-hooks")]` line. Events go to a sink
+//! installed per thread by an external harness; without a sink every hook is a no-op. Events
+//! issued inside a critical section are appended while the section's lock is held, so their
+//! order in the sink is the order of the critical sections.
+//!
+//! Nothing in here changes what the manager does.
+
+use std::{
+    cell::{Cell, RefCell},
+    sync::{
+        Arc, Mutex,
+        atomic::{AtomicU64, Ordering},
+    },
+};
+
+use super::pathset::PathSetSharedState;
+use crate::path::fetcher::traits::PathFetchError;
+
+/// Kind of a synchronisation event.
+#[derive(Debug, Clone, Copy, PartialEq, Eq)]
+pub enum Kind {
+    /// `path()`: `peek_with` + `try_active_path` done; arg = 1 if a path was found.
+    PeekPath,
+    /// `cached_path()`: `peek_with` + `try_active_path` done; arg = 1 if a path was found.
+    PeekCached,
+    /// `fast_ensure_managed_paths`: `contains`; arg = 1 if the pair is managed.
+    Contains,
+    /// `ensure_managed_paths`: entry obtained (logged while the entry is held); arg = 1 if it was
+    /// vacant (a worker was spawned).
+    Ensure,
+    /// `active_path()`: first slot load; arg = 1 if `Some`.
+    Load1,
+    /// `await_ongoing_update`: inside the locked block; arg = 1 if it returns at once, 0 if the
+    /// `Notified` future is created.
+    Check,
+    /// `await_ongoing_update`: the `Notified` future completed.
+    Wake,
+    /// `path()`: `active_path().await` returned; arg = 1 if `Some`.
+    Load2,
+    /// `path()`: `current_error()` read; arg = error class (see [`err_class`]).
+    Err,
+    /// `fetch_and_update`: first locked block, `ongoing_start` set.
+    Begin,
+    /// `fetch_and_update`: the fetcher returned; arg = 0 paths, 1 no paths, 2 failure.
+    Fetched,
+    /// `fetch_and_update`: `current_error` updated.
+    SetErr,
+    /// About to store into the active slot; arg = 1 if `Some`.
+    Slot,
+    /// `fetch_and_update`: last locked block (flags cleared, `notify_waiters`).
+    Complete,
+    /// `fetch_and_update` returns (the caller drops its strong manager reference next).
+    Release,
+    /// `manage()`: the maintenance loop returned; arg = 0 manager dropped, 1 cancelled, 2 idle,
+    /// 3 other.
+    Quit,
+    /// `stop_managing_paths`: an entry was removed.
+    Removed,
+    /// `manage()`: past the removal of the pair's entry (whether or not anything was removed).
+    ExitRemoveDone,
+    /// `manage()`: exit locked block (flags cleared, `notify_waiters`, error set).
+    ExitBlock,
+    /// `manage()`: about to clear the active slot on exit.
+    ExitClear,
+    /// Injected by the harness (never by the library); arg is harness-defined.
+    Harness,
+}
+
+/// One trace event.
+#[derive(Debug, Clone, Copy, PartialEq, Eq)]
+pub struct Ev {
+    /// Caller identity ([`ACTOR`] of the current task), 0 if none (a worker task).
+    pub actor: u64,
+    /// Identity of the path set (address of its shared state), 0 if not applicable.
+    pub pset: usize,
+    /// Identity of the OS thread that issued the event (events of one task between two await
+    /// points carry the same value).
+    pub thread: u64,
+    /// What happened.
+    pub kind: Kind,
+    /// Observed value, see [`Kind`].
+    pub arg: u64,
+}
+
+/// What a `PathSetHandle` reports at the moment of the call.
+#[derive(Debug, Clone, Copy, PartialEq, Eq)]
+pub struct HandleView {
+    /// `try_active_path()` is `Some` (read without marking the path set as used).
+    pub active: bool,
+    /// Class of `current_error()`, see [`err_class`].
+    pub err: u64,
+    /// `initialized` flag.
+    pub initialized: bool,
+    /// `ongoing_start.is_some()`.
+    pub ongoing: bool,
+}
+
+/// Reads the state behind the handles of one path set.
+pub type Probe = Box<dyn Fn() -> HandleView + Send + Sync>;
+
+/// Receiver of the events of one scenario.
+pub struct Sink {
+    /// The linearised trace.
+    pub events: Mutex<Vec<Ev>>,
+    /// One probe per path set created (identity as in [`Ev::pset`]), in creation order.
+    pub probes: Mutex<Vec<(usize, Probe)>>,
+    /// Schedule perturbation: number of `yield_now` to insert at pause point `k` (may also
+    /// sleep or spin the calling thread).
+    pub pause: Box<dyn Fn(u32) -> u32 + Send + Sync>,
+}
+
+static NEXT_THREAD: AtomicU64 = AtomicU64::new(1);
+
+thread_local! {
+    static SINK: RefCell<Option<Arc<Sink>>> = const { RefCell::new(None) };
+    static THREAD: u64 = NEXT_THREAD.fetch_add(1, Ordering::Relaxed);
+    static VACANT: Cell<bool> = const { Cell::new(false) };
+}
+
+tokio::task_local! {
+    /// Identity of the caller running in the current task (set by the harness).
+    pub static ACTOR: u64;
+}
+
+/// Installs (or removes) the sink of the current thread.
+pub fn install(sink: Option<Arc<Sink>>) {
+    SINK.with(|s| *s.borrow_mut() = sink);
+}
+
+fn sink() -> Option<Arc<Sink>> {
+    SINK.with(|s| s.borrow().clone())
+}
+
+fn actor() -> u64 {
+    ACTOR.try_with(|a| *a).unwrap_or(0)
+}
+
+/// Appends an event to the current thread's sink, if any.
+pub fn push(kind: Kind, pset: usize, arg: u64) {
+    if let Some(s) = sink() {
+        s.events.lock().expect("trace sink poisoned").push(Ev {
+            actor: actor(),
+            pset,
+            thread: THREAD.with(|t| *t),
+            kind,
+            arg,
+        });
+    }
+}
+
+/// Identity of a path set: the address of its shared state.
+pub(crate) fn pid<T>(shared: &Arc<T>) -> usize {
+    Arc::as_ptr(shared).cast::<()>() as usize
+}
+
+/// Event about path set `shared`.
+pub(crate) fn ev<T>(kind: Kind, shared: &Arc<T>, arg: u64) {
+    push(kind, pid(shared), arg);
+}
+
+/// Event of a caller that is not about a particular path set.
+pub(crate) fn ev0(kind: Kind, arg: u64) {
+    push(kind, 0, arg);
+}
+
+/// `manage()`: the maintenance loop returned with `reason`.
+pub(crate) fn quit<T>(shared: &Arc<T>, reason: &str) {
+    let arg = match reason {
+        "manager dropped" => 0,
+        "cancelled" => 1,
+        "idle" => 2,
+        _ => 3,
+    };
+    push(Kind::Quit, pid(shared), arg);
+}
+
+/// `stop_managing_paths`: an entry was removed (by a caller, or - no caller identity - by the
+/// exiting worker whose [`Kind::ExitRemoveDone`] is the next event of the same thread).
+pub(crate) fn removed() {
+    push(Kind::Removed, 0, 0);
+}
+
+/// `manage()`: the exit sequence of the worker is over.
+pub(crate) fn exit_clear<T>(shared: &Arc<T>) {
+    push(Kind::ExitClear, pid(shared), 0);
+}
+
+/// `ensure_managed_paths`: the vacant arm was taken.
+pub(crate) fn vacant() {
+    VACANT.with(|v| v.set(true));
+}
+
+/// `ensure_managed_paths`: entry for path set `shared` obtained.
+pub(crate) fn ensure(shared: &Arc<PathSetSharedState>) {
+    let was_vacant = VACANT.with(|v| v.replace(false));
+    if was_vacant && let Some(s) = sink() {
+        let sh = shared.clone();
+        let probe: Probe = Box::new(move || {
+            let g = sh.sync.lock().expect("sync poisoned");
+            HandleView {
+                active: sh.active_path.load().is_some(),
+                err: err_class(g.current_error.as_ref()),
+                initialized: g.initialized,
+                ongoing: g.ongoing_start.is_some(),
+            }
+        });
+        s.probes.lock().expect("trace sink poisoned").push((pid(shared), probe));
+    }
+    push(Kind::Ensure, pid(shared), u64::from(was_vacant));
+}
+
+/// Class of a `current_error` value: 0 none, 1 no paths found, 2 other, 10 + reason for
+/// "`PathSet` task exited" (reason numbered as in [`Kind::Quit`]).
+#[must_use]
+pub fn err_class(e: Option<&Arc<PathFetchError>>) -> u64 {
+    match e.map(|e| &**e) {
+        None => 0,
+        Some(PathFetchError::NoPathsFound) => 1,
+        Some(PathFetchError::InternalError(s)) => {
+            match s.strip_prefix("PathSet task exited: ") {
+                Some("manager dropped") => 10,
+                Some("cancelled") => 11,
+                Some("idle") => 12,
+                Some(_) => 13,
+                None => 2,
+            }
+        }
+        Some(_) => 2,
+    }
+}
+
+/// `fetch_and_update`: the fetcher returned `result`.
+pub(crate) fn fetched<T, P>(shared: &Arc<T>, result: &Result<P, PathFetchError>) {
+    let arg = match result {
+        Ok(_) => 0,
+        Err(PathFetchError::NoPathsFound) => 1,
+        Err(_) => 2,
+    };
+    push(Kind::Fetched, pid(shared), arg);
+}
+
+/// Schedule perturbation point `k` (only in `async fn`s, never inside a critical section).
+pub(crate) async fn pause(k: u32) {
+    let n = match sink() {
+        Some(s) => (s.pause)(k),
+        None => 0,
+    };
+    for _ in 0..n {
+        tokio::task::yield_now().await;
+    }
+}
